@@ -494,6 +494,14 @@ fn c14_case(cs: u64, mon: &mut Monitor, c13: Option<&mut Monitor>) {
     for f in obs.findings {
         if f.prop == "C14" {
             mon.violation(&f.sig, json!({"case": case, "finding": f.detail}));
+            // A session that disagrees with its overlay model after a failing operation has not
+            // been reverted exactly: that is C13's session half. (When C14 is part of the run its
+            // own monitor reports it; the copy keeps `--prop C13` from missing it.)
+            if failing_ops > 0 {
+                if let Some(c) = c13.as_deref_mut() {
+                    c.violation(&format!("C14:{}", f.sig), json!({"case": case, "finding": f.detail}));
+                }
+            }
         }
     }
     if let Some(c) = c13.as_deref_mut() {
@@ -567,7 +575,7 @@ fn main() {
     run("C13", args.n(3000, 300_000), &mut c13, &c13_case);
     if args.wants("C14") || args.wants("C13") {
         // C14 workload (its failing operations are also C13's session half)
-        let mut n = args.n(if args.wants("C14") { 600 } else { 150 }, 12_000);
+        let mut n = args.n(if args.wants("C14") { 600 } else { 300 }, 12_000);
         if let Some(k) = args.get("miri_cases") {
             n = k.parse().unwrap_or(3);
         }
